@@ -549,6 +549,174 @@ Proof.
   rewrite (mem_register_mono _ _ _ Hm'). reflexivity.
 Qed.
 
+(* ---------------------------------------------------------------- a stream that stalls *)
+
+(* what may be dispatched for a frame whose bytes were cut by the stall: its own header; a handler
+   saw a prefix of its payload; no caller was given a buffered reply *)
+Definition partial_ok (f : frame) (d : dispatch) : Prop :=
+  d_hdr d = frame_header f /\
+  (forall c, d_handler d = Some c -> exists q, f_payload f = hc_offered c ++ q) /\
+  (forall pl, d_reply d <> Some (RBuffered pl)).
+
+(* the log against the frames the reader sent: complete frames dispatched as specified, in
+   order, then possibly ONE frame that was cut — its own header, a prefix of its payload —
+   and nothing else *)
+Inductive stall_sound (env : nat -> env_step) : state -> nat -> list frame -> list dispatch -> Prop :=
+| ss_nil : forall st i fs, stall_sound env st i fs []
+| ss_cons : forall st i f fs l,
+    stall_sound env (state_next st (env i) f) (S i) fs l ->
+    stall_sound env st i (f :: fs) (expected_dispatch (s_aw st) (env i) f :: l)
+| ss_partial : forall st i f fs d, partial_ok f d -> stall_sound env st i (f :: fs) [d].
+
+Lemma split_at_short : forall A n (l : list A), len l <= n -> split_at n l = (l, []).
+Proof.
+  intros A n l. revert n. induction l as [|x l IH]; intros n H; [reflexivity|].
+  cbn [split_at]. rewrite len_cons in H.
+  destruct (N.eqb_spec n 0); [lia|].
+  rewrite IH by lia. reflexivity.
+Qed.
+
+Lemma read_header_short : forall bs, len bs < HeaderSz ->
+  read_header bs = RhEOF \/ read_header bs = RhShort.
+Proof.
+  intros bs H. unfold read_header. rewrite split_at_short by lia.
+  destruct (len bs =? 0); [left; reflexivity|].
+  destruct (N.ltb_spec (len bs) HeaderSz); [right; reflexivity|lia].
+Qed.
+
+Lemma pass_to_handler_cut : forall aw e f m q,
+  f_payload f = m ++ q -> q <> [] ->
+  forall r aw', pass_to_handler maxbuf cfg aw (frame_header f) e m = (r, aw') ->
+  exists d, (r = PthOk d [] \/ r = PthErr d) /\ partial_ok f d.
+Proof.
+  intros aw e f m q Hpl Hq r aw'. unfold pass_to_handler.
+  cbn [frame_header h_len h_id h_typ].
+  assert (Hlt : len m < len (f_payload f)).
+  { rewrite Hpl, len_app. destruct q; [congruence|]. rewrite len_cons. lia. }
+  rewrite split_at_short by lia.
+  destruct (N.eqb_spec (len m) (len (f_payload f))); [lia|].
+  destruct (negb (never_reply cfg (f_typ f)) && mem (f_id f) (register (e_register e) aw));
+    destruct (pick_handler cfg (f_typ f)) as [w|];
+    try destruct (maxbuf <? len (f_payload f));
+    intro H; inversion H; subst; clear H;
+    eexists; (split; [first [left; reflexivity|right; reflexivity]|]);
+    unfold partial_ok, call_handler; cbn [d_hdr d_handler d_reply option_map hc_offered];
+    (split; [reflexivity|split; [intros c Hc; inversion Hc; subst; cbn [hc_offered]; exists q; assumption|intros pl; discriminate]])
+    || (split; [reflexivity|split; [intros c Hc; discriminate|intros pl; discriminate]]).
+Qed.
+
+Lemma read_loop_stall_unfold : forall ig fuel st env i bs after,
+  read_loop_stall maxbuf cfg ig (S fuel) st env i bs after =
+  match read_header bs with
+  | RhOk h rest =>
+      if len rest <? h_len h then
+        let cs := s_closed_seen st || ((h_typ h =? MsgCloseConnectionResponse) && e_close_sent (env i)) in
+        match pass_to_handler maxbuf cfg (s_aw st) h (env i) rest with
+        | (PthOk d _, aw') =>
+            if ig then d :: r_log (read_loop maxbuf cfg (S (length after)) (mkState aw' cs) env (S i) after) else [d]
+        | (PthErr d, _) => [d]
+        end
+      else
+        match read_iter maxbuf cfg st (env i) bs with
+        | ItNext d st' rest' => d :: read_loop_stall maxbuf cfg ig fuel st' env (S i) rest' after
+        | ItLast d => [d]
+        | ItEnd _ _ => []
+        end
+  | _ => []
+  end.
+Proof. reflexivity. Qed.
+
+Lemma stall_loop_sound : forall fs fuel st env i before after,
+  Forall frame_wf fs ->
+  before ++ after = concat (map frame_bytes fs) ->
+  (length before < fuel)%nat ->
+  stall_sound env st i fs (read_loop_stall maxbuf cfg false fuel st env i before after).
+Proof.
+  induction fs as [|f fs IH]; intros fuel st env i before after Hwf Heq Hfuel.
+  - cbn [map concat] in Heq. apply app_eq_nil in Heq. destruct Heq as [-> _].
+    destruct fuel; [cbn; constructor|]. rewrite read_loop_stall_unfold. cbn. constructor.
+  - inversion Hwf as [|? ? Hf Hfs]; subst.
+    destruct fuel as [|fuel]; [lia|]. rewrite read_loop_stall_unfold.
+    cbn [map concat] in Heq.
+    assert (Hcomplete : forall l, before = frame_bytes f ++ l -> l ++ after = concat (map frame_bytes fs) ->
+              stall_sound env st i (f :: fs)
+                match read_header before with
+                | RhOk h rest =>
+                    if len rest <? h_len h then
+                      let cs := s_closed_seen st || ((h_typ h =? MsgCloseConnectionResponse) && e_close_sent (env i)) in
+                      match pass_to_handler maxbuf cfg (s_aw st) h (env i) rest with
+                      | (PthOk d _, aw') => [d]
+                      | (PthErr d, _) => [d]
+                      end
+                    else
+                      match read_iter maxbuf cfg st (env i) before with
+                      | ItNext d st' rest' => d :: read_loop_stall maxbuf cfg false fuel st' env (S i) rest' after
+                      | ItLast d => [d]
+                      | ItEnd _ _ => []
+                      end
+                | _ => []
+                end).
+    { intros l Hb Hl. subst before. unfold frame_bytes at 1. rewrite <- app_assoc.
+      rewrite read_header_frame by assumption. cbn [frame_header h_len].
+      replace (len (f_payload f ++ l) <? len (f_payload f)) with false
+        by (symmetry; apply N.ltb_ge; rewrite len_app; lia).
+      rewrite read_iter_frame by assumption.
+      constructor. apply IH; try assumption.
+      unfold frame_bytes in Hfuel. rewrite !app_length in Hfuel.
+      cbn [length header_bytes app be32_bytes] in Hfuel. lia. }
+    apply app_eq_app in Heq. destruct Heq as [l [[Hb Hl]|[Hb Hl]]].
+    + apply (Hcomplete l Hb). symmetry. exact Hl.
+    + destruct l as [|x l'].
+      * rewrite app_nil_r in Hb. cbn [app] in Hl. apply (Hcomplete []); [rewrite app_nil_r; auto|]. cbn [app]. exact Hl.
+      * (* before is a strict prefix of frame_bytes f *)
+        unfold frame_bytes in Hb. apply app_eq_app in Hb. destruct Hb as [m [[Hh Hp]|[Hh Hp]]].
+        -- (* header_bytes f = before ++ m *)
+           destruct m as [|y m'].
+           ++ rewrite app_nil_r in Hh. cbn [app] in Hp. subst before.
+              rewrite <- (app_nil_r (header_bytes f)). rewrite read_header_frame by assumption. cbn [frame_header h_len].
+              replace (len (@nil byte) <? len (f_payload f)) with true
+                by (symmetry; apply N.ltb_lt; rewrite <- Hp, len_cons; cbn; lia).
+              fold (frame_header f).
+              destruct (pass_to_handler maxbuf cfg (s_aw st) (frame_header f) (env i) []) as [r aw'] eqn:Hpth.
+              destruct (pass_to_handler_cut (s_aw st) (env i) f [] (x :: l') (eq_sym Hp) ltac:(discriminate) r aw' Hpth)
+                as [d [[->| ->] Hok]]; cbn zeta; apply ss_partial; assumption.
+           ++ assert (Hshort : len before < HeaderSz).
+              { pose proof (header_bytes_len f) as Hl10. rewrite Hh, len_app, len_cons in Hl10. lia. }
+              destruct (read_header_short before Hshort) as [-> | ->]; constructor.
+        -- (* before = header_bytes f ++ m, payload = m ++ x :: l' *)
+           subst before. rewrite read_header_frame by assumption. cbn [frame_header h_len].
+           replace (len m <? len (f_payload f)) with true
+             by (symmetry; apply N.ltb_lt; rewrite Hp, len_app, len_cons; lia).
+           fold (frame_header f).
+           destruct (pass_to_handler maxbuf cfg (s_aw st) (frame_header f) (env i) m) as [r aw'] eqn:Hpth.
+           destruct (pass_to_handler_cut (s_aw st) (env i) f m (x :: l') Hp ltac:(discriminate) r aw' Hpth)
+             as [d [[->| ->] Hok]]; cbn zeta; apply ss_partial; assumption.
+Qed.
+
+Lemma serve_stall_sound : forall fs st env before after,
+  Forall frame_wf fs -> before ++ after = concat (map frame_bytes fs) ->
+  stall_sound env st O fs (serve_stall maxbuf cfg false st env before after).
+Proof. intros. unfold serve_stall. apply stall_loop_sound; auto. Qed.
+
+(* what stall_sound gives, position by position: every dispatched header is the header of the
+   frame the reader sent at that position, and a handler saw a prefix of that frame's payload *)
+Lemma stall_sound_headers : forall env fs st i l,
+  stall_sound env st i fs l ->
+  forall j d, nth_error l j = Some d ->
+  exists f, nth_error fs j = Some f /\ d_hdr d = frame_header f /\
+            (forall c, d_handler d = Some c -> exists q, f_payload f = hc_offered c ++ q).
+Proof.
+  intros env fs st i l H. induction H as [st i fs|st i f fs l H IH|st i f fs d0 Hp]; intros j d Hn.
+  - destruct j; discriminate.
+  - destruct j as [|j]; cbn [nth_error] in *.
+    + inversion Hn; subst. exists f. split; [reflexivity|]. split; [reflexivity|].
+      intros c Hc. unfold expected_dispatch in Hc. cbn [d_handler] in Hc.
+      destruct (pick_handler cfg (f_typ f)); inversion Hc; subst. cbn [hc_offered]. exists []. now rewrite app_nil_r.
+    + apply IH. assumption.
+  - destruct j as [|j]; cbn [nth_error] in *; [|destruct j; discriminate].
+    inversion Hn; subst. exists f. destruct Hp as [Hh [Hc _]]. auto.
+Qed.
+
 End Spec.
 
 (* witness for the shortcut-first order of Message.data: limit 4, an awaited reply with 5
@@ -581,4 +749,22 @@ Lemma wit_report_not_exempt_steals_reply :
   = [None; Some (RBuffered [1; 2; 3])].
 Proof.
   cbv zeta. split; [repeat constructor; vm_compute; reflexivity|]. vm_compute. split; reflexivity.
+Qed.
+
+(* witness: the drain's error dropped.  One frame (type 12, a handler that reads nothing) whose
+   payload is 1 2 3 followed by bytes that look like a frame (type 30, id 99, payload 7 7); the
+   stream stalls after the third payload byte: a second message is dispatched that the reader
+   never sent; the tree as found dispatches the cut frame only *)
+Lemma wit_stall_resync :
+  let cfg := mkConfig (fun t => t =? 12) true (fun _ => false) in
+  let inner := mkFrame 0 1 30 99 [7; 7] in
+  let f := mkFrame 0 1 12 5 ([1; 2; 3] ++ frame_bytes inner) in
+  let env := fun _ : nat => mkEnv [] (HRead 0) false in
+  let before := header_bytes f ++ [1; 2; 3] in
+  let after := frame_bytes inner in
+  frame_wf f /\ before ++ after = concat (map frame_bytes [f]) /\
+  map d_hdr (serve_stall 100 cfg true st0 env before after) = [frame_header f; frame_header inner] /\
+  map d_hdr (serve_stall 100 cfg false st0 env before after) = [frame_header f].
+Proof.
+  cbv zeta. split; [constructor; vm_compute; reflexivity|]. vm_compute. repeat split; reflexivity.
 Qed.
